@@ -265,8 +265,9 @@ class SymExec:
                 if len(outs) > 1:
                     # cannot continue a single state: signal forking to the statement level
                     raise _Fork(outs)
-                body_ = U.body_without_docstring(tgt[2])
-                if len(body_) == 1 and isinstance(body_[0], ast.Raise):
+                body_ = U.core_body(tgt[2])
+                if body_ and isinstance(body_[-1], ast.Raise) and 'NotImplemented' in U.src(body_[-1]) and not any(isinstance(n_, ast.Return) for n_ in ast.walk(tgt[2])) \
+                        or (len(body_) == 1 and isinstance(body_[0], ast.Raise)):
                     # abstract method (raise NotImplementedError): the concrete override is unknown here -> opaque value
                     st.calls.append((name, args))
                     return ('call', name, args, kwargs)
